@@ -138,7 +138,7 @@ class Intrinsics:
         hook = self.ex.external_contract(name)
         if hook is not None:
             return hook(P, args, kwargs)
-        if name.startswith('ast.') and name[4:5].isupper() and not args:
+        if name.startswith('ast.') and (name[4:5].isupper() or name[4:] in ('keyword', 'arg', 'arguments', 'comprehension')) and not args:
             # Python `ast` node constructor with keyword fields: an opaque free constructor
             from .strings import FreeCons
             return FreeCons(name, dict(kwargs))
